@@ -364,7 +364,7 @@ Section Foreign.
       unfold do_stat in D. destruct (faulty e s'); injection D; intros <- _; eexists; (split; [reflexivity | discriminate]).
     - destruct (do_delete e k s') as [r s2] eqn:D. intros H; injection H; intros <- <-.
       split; [|discriminate]. right.
-      unfold do_delete in D. destruct (faulty e s'); [|destruct (efaulty e s')]; injection D; intros <- _; eexists; (split; [reflexivity | reflexivity]).
+      unfold do_delete in D. destruct (faulty e s'); [|destruct (pfaulty e s'); [|destruct (efaulty e s')]]; injection D; intros <- _; eexists; (split; [reflexivity | reflexivity]).
     - destruct (do_store e k n s') as [r s2] eqn:D. intros H; injection H; intros <- <-.
       split; [|discriminate]. right.
       unfold do_store in D. destruct (faulty e s'); [|destruct (is_dir _ _); [|destruct (efaulty e s')]]; injection D; intros <- _;
@@ -479,8 +479,9 @@ Section Frame.
       + destruct (do_stat e k0 s') as [r s2] eqn:D. injection Ex; intros <- _.
         rewrite (proj1 (do_stat_spec _ _ _ _ _ D)). exact HP'.
       + destruct (do_delete e k0 s') as [r s2] eqn:D. injection Ex; intros <- _.
-        destruct (do_delete_spec _ _ _ _ _ D) as [-> | ->]; [exact HP'|].
-        rewrite lookup_remove, (not_covered k0 (warranted_namespace o h k0 Hh (Hd k0 eq_refl))). exact HP'.
+        destruct (do_delete_spec _ _ _ _ _ D) as [-> | [-> | [keep ->]]]; [exact HP'| |].
+        * rewrite lookup_remove, (not_covered k0 (warranted_namespace o h k0 Hh (Hd k0 eq_refl))). exact HP'.
+        * rewrite lookup_removep, (not_covered k0 (warranted_namespace o h k0 Hh (Hd k0 eq_refl))). exact HP'.
       + destruct (do_store e k0 n s') as [r s2] eqn:D. injection Ex; intros <- _.
         destruct (do_store_spec _ _ _ _ _ _ D) as [(_ & -> & _)|(-> & _ & _)]; [exact HP'|].
         rewrite lookup_put, (Hst k0 n eq_refl).
@@ -720,12 +721,16 @@ Section LiveFrame.
       + destruct (do_stat e k0 s') as [r s2] eqn:D. injection Ex; intros <- _.
         intros q Hq. rewrite (proj1 (do_stat_spec _ _ _ _ _ D)). exact (HI' q Hq).
       + destruct (do_delete e k0 s') as [r s2] eqn:D. injection Ex; intros <- _.
-        intros q Hq. destruct (do_delete_spec _ _ _ _ _ D) as [-> | ->]; [exact (HI' q Hq)|].
-        destruct (warranted_spares h k0 Hh (Hd k0 eq_refl)) as [Na Nk].
-        rewrite lookup_remove. destruct (covers k0 q) eqn:C; [|exact (HI' q Hq)].
-        destruct Hq as [->|Hq].
-        * destruct Nk as [Nk|Nk]; [congruence | symmetry; exact Nk].
-        * rewrite (covers_trans _ _ _ C Hq) in Na. discriminate.
+        intros q Hq.
+        assert (Rm : forall b, (if covers k0 q && b then None else lookup (sto s') q) = lookup s0 q).
+        { intros b. destruct (warranted_spares h k0 Hh (Hd k0 eq_refl)) as [Na Nk].
+          destruct (covers k0 q) eqn:C; [|exact (HI' q Hq)]. destruct b; [|exact (HI' q Hq)]. cbn [andb].
+          destruct Hq as [->|Hq].
+          * destruct Nk as [Nk|Nk]; [congruence | symmetry; exact Nk].
+          * rewrite (covers_trans _ _ _ C Hq) in Na. discriminate. }
+        destruct (do_delete_spec _ _ _ _ _ D) as [-> | [-> | [keep ->]]]; [exact (HI' q Hq)| |].
+        * rewrite lookup_remove. specialize (Rm true). rewrite andb_true_r in Rm. exact Rm.
+        * rewrite lookup_removep. apply Rm.
       + destruct (do_store e k0 n s') as [r s2] eqn:D. injection Ex; intros <- _.
         intros q Hq. destruct (do_store_spec _ _ _ _ _ _ D) as [(_ & -> & _)|(-> & _ & _)]; [exact (HI' q Hq)|].
         rewrite lookup_put, (Hst k0 n eq_refl).
